@@ -222,6 +222,14 @@ def option_value(attr, tok):
     return tok
 
 
+def options_text(opts):
+    """namespace_options as python source text."""
+    def pv(k, tok):
+        v = option_value(k, tok)
+        return v.__name__ if isinstance(v, type) or callable(v) else repr(v)
+    return '{%s}' % ', '.join('%r: %s' % (k, pv(k, t)) for k, t in opts.items())
+
+
 def setup(inst):
     """Build both sides and make the call.  -> dict(src_spec, dst_spec, src_root, dst_root, src_cls, err, exc)"""
     io = inst['io']
@@ -479,7 +487,9 @@ def reproduction(inst):
     kw = call_kwargs(inst)
     args = ', '.join('%s=%r' % (k, v) for k, v in kw.items() if k != 'namespace_options')
     if 'namespace_options' in kw:
-        args += (', ' if args else '') + 'namespace_options=%s' % json.dumps(inst['opts'])
+        if any(k == 'validator' and t != '-' for k, t in inst['opts'].items()):
+            lines.insert(3, 'def v3(value, port): return None')
+        args += (', ' if args else '') + 'namespace_options=%s' % options_text(inst['opts'])
     lines.append('dst.%s(Source%s)' % ('expose_inputs' if io == 'in' else 'expose_outputs', (', ' + args) if args else ''))
     lines.append('print(dst.%s.get_description())' % ('inputs' if io == 'in' else 'outputs'))
     return '\n'.join(lines)
